@@ -65,6 +65,7 @@ def std_patches(mods=None, sets=False):
         (m["transform"], "xr", XRModel),
         (m["transform"], "np", NPModel),
         (m["transform"], "len", symlen),
+        (m["comodo"], "len", symlen),
     ]
     if sets:
         for k in ("padding",):
